@@ -18,6 +18,8 @@ import OpenFGAVerif.Proofs.ListUsersStage2
 import OpenFGAVerif.Proofs.ListUsersFilter
 import OpenFGAVerif.Proofs.RefRules
 
+set_option linter.unusedSectionVars false
+
 namespace OpenFGAVerif.ListUsers
 open OpenFGAVerif.Vocab OpenFGAVerif.CheckV1 OpenFGAVerif.BoolSys
 
